@@ -2276,7 +2276,8 @@ mod fields_ext {
                 _ => {}
             }
             Ok(match ty {
-                syn::Type::Tuple(syn::TypeTuple { elems, .. }) => {
+                // A single field takes the provided type as a whole, even if it's a tuple.
+                syn::Type::Tuple(syn::TypeTuple { elems, .. }) if self.len() != 1 => {
                     Either::Left(elems.iter())
                 }
                 other => Either::Right(iter::once(other)),
